@@ -101,16 +101,15 @@ def run_controller(chk):
             if not raw:
                 raise vlib.Inconclusive("simulation produced no walks: " + res.out[-800:])
             steps = [[o["act"] for o in w] for w in raw]
-            inits = [init_of(dict(w[0]["pre"], stale=w[0].get("stale", False))) for w in raw]
+            inits = [init_of(dict(w[0]["pre"], stale=res.extra.get("stale", False))) for w in raw]
             nedges = sum(map(len, raw))
             left = 0
             exhaustive = False
         else:
             edges, initkeys, res = vlib.generate_edges(chk, "ControllerMC", cfg)
-            init_state = json.loads(initkeys[0])
+            init_state = dict(json.loads(initkeys[0]), stale=res.extra.get("stale", False))
             sample = SAMPLE.get(chk.tier)
-            walks, left = vlib.edge_cover_walks(edges, vlib.canon(pre_of_init(edges, init_state)), max_len=60,
-                                                seed=chk.seed, sample=sample)
+            walks, left = vlib.edge_cover_walks(edges, initkeys[0], max_len=60, seed=chk.seed, sample=sample)
             steps = [[edges[i][1] for i in w] for w in walks]
             inits = [init_of(init_state)] * len(walks)
             nedges = len(edges)
@@ -153,19 +152,6 @@ def run_controller(chk):
     chk.assumptions += ["Services carry at least one port; loadBalancerIP and the loadBalancerIPs annotation are never both set; "
                         "requested addresses are syntactically valid",
                         "the informer cache follows the API server at once unless the configuration says Stale"]
-
-
-def pre_of_init(edges, init_state):
-    """The canonical key of the initial state as it appears as `pre` in the edges (StateRec form)."""
-    # the init print carries api/cfgApi only; find the pre whose api/cfgApi match and which is pristine
-    for e in edges:
-        st = json.loads(e[0])
-        if st["api"] == init_state["api"] and st["cfgApi"] == init_state["cfgApi"] and st["ctl"] == "" \
-                and st["poolEvt"] and not st["gate"] and st["pass"].get("null") and not st["reload"] \
-                and all(v.get("null") for v in st["al"].values()) \
-                and sorted(st["svcQ"]) == sorted(s for s, v in st["api"].items() if not v.get("null")):
-            return st
-    raise vlib.Inconclusive("initial state not found among the emitted transitions")
 
 
 def confirm(chk, mine, steps, inits, domain_path, byw):
